@@ -69,6 +69,12 @@ Clauses(in, out) ==
      <<"MonotoneOutwards", ok => \A i \in 1..(n - 1) :
             /\ (Region(in, in.probes[i]) = "heat" /\ Region(in, in.probes[i + 1]) = "heat") => out.rows[i].ce >= out.rows[i + 1].fl
             /\ (Region(in, in.probes[i]) = "cool" /\ Region(in, in.probes[i + 1]) = "cool") => out.rows[i].fl <= out.rows[i + 1].ce>>,
+     \* the order-relation form of "asymptotically a straight line with the fitted slope": the gap above the asymptote never grows outwards
+     <<"GapToTheAsymptoteShrinksOutwards", ok => \A i \in 1..(n - 1) :
+            /\ (Region(in, in.probes[i]) = "heat" /\ Region(in, in.probes[i + 1]) = "heat") =>
+                  Le(Sub(R(out.rows[i].fl), Mul(Lower(in, in.probes[i]), R(S))), Sub(R(out.rows[i + 1].ce), Mul(Lower(in, in.probes[i + 1]), R(S))))
+            /\ (Region(in, in.probes[i]) = "cool" /\ Region(in, in.probes[i + 1]) = "cool") =>
+                  Le(Sub(R(out.rows[i + 1].fl), Mul(Lower(in, in.probes[i + 1]), R(S))), Sub(R(out.rows[i].ce), Mul(Lower(in, in.probes[i]), R(S))))>>,
      <<"LoadsNonNegativeExclusiveAndAdditive", ok => \A i \in 1..n : out.rows[i].loadsOk>>,
      <<"LoadOnTheRightSide", ok => \A i \in 1..n :
             /\ (Region(in, in.probes[i]) = "heat" => out.rows[i].heatOnly)
